@@ -126,13 +126,13 @@ Proof.
   assert (NR : PKRead <> PKClose) by discriminate. assert (NW : PKWrite <> PKClose) by discriminate.
   set (sf := if f_hup fl then _ else _).
   assert (Q1 : p_once (fst sf)).
-  { unfold sf. destruct (f_hup fl); [|exact Q]. simpl.
-    destruct (e_rd (ep_obj (st_ep s) id)). apply p_once_invoke_nonclose; auto.
-    destruct (e_wd (ep_obj (st_ep s) id)). apply p_once_invoke_nonclose; auto.
-    destruct (e_cd (ep_obj (st_ep s) id)); [|exact Q].
-    assert (Q0 : p_once (p_touch s n)) by (eapply p_once_same; [apply p_same_touch|exact Q]).
-    destruct (p_has_data (p_touch s n) n).
-    apply p_once_invoke_nonclose; auto. apply p_once_ep_close; auto. }
+  { unfold sf. destruct (f_hup fl); [|exact Q].
+    destruct (e_rd (ep_obj (st_ep s) id)). simpl. apply p_once_invoke_nonclose; auto.
+    destruct (e_cd (ep_obj (st_ep s) id)).
+    - simpl. assert (Q0 : p_once (p_touch s n)) by (eapply p_once_same; [apply p_same_touch|exact Q]).
+      destruct (p_has_data (p_touch s n) n).
+      apply p_once_invoke_nonclose; auto. apply p_once_ep_close; auto.
+    - destruct (e_wd (ep_obj (st_ep s) id)); simpl; [|exact Q]. apply p_once_invoke_nonclose; auto. }
   destruct sf as [s1 fl1]. simpl in Q1.
   assert (Q2 : p_once (if f_in fl1
                        then match e_rd (ep_obj (st_ep s1) id), e_cd (ep_obj (st_ep s1) id) with
@@ -316,13 +316,13 @@ Proof.
   assert (NR : PKRead <> PKClose) by discriminate. assert (NW : PKWrite <> PKClose) by discriminate.
   set (sf := if f_hup fl then _ else _).
   assert (Q1 : p_cok (fst sf)).
-  { unfold sf. destruct (f_hup fl); [|exact Q]. simpl.
-    destruct (e_rd (ep_obj (st_ep s) id)). apply p_cok_invoke_nonclose; auto.
-    destruct (e_wd (ep_obj (st_ep s) id)). apply p_cok_invoke_nonclose; auto.
-    destruct (e_cd (ep_obj (st_ep s) id)); [|exact Q].
-    assert (Q0 : p_cok (p_touch s n)) by (eapply p_cok_same; [apply p_same_log, p_same_touch|exact Q]).
-    destruct (p_has_data (p_touch s n) n) eqn:HD.
-    apply p_cok_invoke_nonclose; auto. apply p_cok_ep_close; auto. apply p_nodata; auto. }
+  { unfold sf. destruct (f_hup fl); [|exact Q].
+    destruct (e_rd (ep_obj (st_ep s) id)). simpl. apply p_cok_invoke_nonclose; auto.
+    destruct (e_cd (ep_obj (st_ep s) id)).
+    - simpl. assert (Q0 : p_cok (p_touch s n)) by (eapply p_cok_same; [apply p_same_log, p_same_touch|exact Q]).
+      destruct (p_has_data (p_touch s n) n) eqn:HD.
+      apply p_cok_invoke_nonclose; auto. apply p_cok_ep_close; auto. apply p_nodata; auto.
+    - destruct (e_wd (ep_obj (st_ep s) id)); simpl; [|exact Q]. apply p_cok_invoke_nonclose; auto. }
   destruct sf as [s1 fl1]. simpl in Q1.
   assert (Q2 : p_cok (if f_in fl1
                       then match e_rd (ep_obj (st_ep s1) id), e_cd (ep_obj (st_ep s1) id) with
